@@ -21,7 +21,7 @@ from ..srcmodel import SourceModel, AnalysisError, MESH_CLASSES
 from ..arrays import AbstractRaise, R, ZERO, ONE, snap, Arr, Box, View, compare_scalar, opaque_fn
 from ..model import World, AX, DIM, atom_array, FACES
 from ..interp import ASparse, AObj, OpaqueFn, explore_paths
-from ..alg import reindex, atom_key
+from ..alg import reindex, atom_key, map_atoms
 from ..npmodel import _to_bool01
 from .. import facts as F
 
@@ -86,6 +86,22 @@ def expected(interp, name, x, y):
     if name == '__abs__':
         return opaque_fn('abs', x)
     raise AnalysisError(name)
+
+
+def operand_ghosts(w, ghost, bcs):
+    """atom map: the ghost atom of operand `name` at cell `ghost` -> the boundary formula of that operand's interior"""
+    cache = {}
+
+    def fn(key):
+        if isinstance(key, tuple) and key and key[0] in bcs and len(key) == 1 + len(ghost) \
+                and all(is_zero(R(a) - b) for a, b in zip(key[1:], ghost)):
+            nm = key[0]
+            if nm not in cache:
+                interior = Box(Arr(tuple(w.N), lambda idx, nm=nm: Rat.atom((nm,) + tuple(i + 1 for i in idx))))
+                cache[nm] = snap(w.call('boundary', 'cellValuesWithBoundaries', interior, bcs[nm])).at(ghost)
+            return cache[nm]
+        return None
+    return fn
 
 
 def path_subst(log):
@@ -254,7 +270,10 @@ def job(args):
                 interior = Box(Arr(tuple(w.N), lambda idx, val=val: val.at(tuple(i + 1 for i in idx))))
                 try:
                     exp_g = snap(w.call('boundary', 'cellValuesWithBoundaries', interior, res.attrs['BCs']))
-                    ob('O4', construct + '/ghosts', is_zero(psub(val.at(ghost) - exp_g.at(ghost))), f"{ktxt}: ghost value {fmt_rat(val.at(ghost), 5)}", m.loc())
+                    # the operands are themselves consistent variables: their ghost atoms stand for the boundary formula of
+                    # their own interior (matters only when a result hands an operand's ghost value on unchanged)
+                    got = map_atoms(val.at(ghost), operand_ghosts(w, ghost, {'A': bcA, 'B': B_.attrs['BCs']}))
+                    ob('O4', construct + '/ghosts', is_zero(psub(got - exp_g.at(ghost))), f"{ktxt}: ghost value {fmt_rat(val.at(ghost), 5)}", m.loc())
                 except AbstractRaise as e:
                     ob('O4', construct + '/ghosts', False, f"ghost recomputation raises {e.exc}", m.loc())
         if len(results) >= 2:
